@@ -1,3 +1,28 @@
 """vcheck configuration of work group H: PROPS = {"Cxx": {"families": [fam("name", quick_n, thorough_n)], "defects": ["Dn"]}}"""
 
-PROPS = {}
+PROPS = {
+    "C10": {
+        "families": [fam("c10", 4000, 60000)],
+        "rule": "values from a grammar around every keyword, record type, field count and numeric bound plus byte mutations; "
+                "each value goes through loadDNSRewrite (and NewNetworkRule when it can be written as an option value); "
+                "c10.dnsrw compares the full dump with the Lean model, c10.shape evaluates the Lean shape predicate on the "
+                "implementation's own result; non-trivial = the value was accepted; distinct by hash of the op input",
+    },
+    "C18": {
+        "families": [fam("c18", 2500, 40000)],
+        "defects": ["D11"],
+        "rule": "lines from the hosts grammar (IPv4/IPv6/mapped/zoned/invalid addresses, 1..8 names, space/tab runs, comments with and "
+                "without a preceding blank incl. tab, trailing blanks) plus byte mutations, through NewHostRule, NewRule and a real "
+                "DNSEngine (every listed name, near misses and an unlisted name are queried); non-trivial = a host rule was produced; "
+                "distinct by hash of the op input",
+    },
+    "C17": {
+        "families": [fam("c17", 2500, 40000)],
+        "rule": "URLs of the property's grammar (scheme://host[:port][/path|?query][#fragment]) with hosts drawn from the PSL's own rule "
+                "shapes (multi-level, wildcard, exception, private suffixes, single labels, unknown TLDs, IPv4), sources of the same shape "
+                "(same registrable domain / other / none), plus odd and mutated URLs and URLs around the 4 KiB cap; c17.req/c17.hostreq/"
+                "c17.etld compare NewRequest/NewRequestForHostname/effectiveTLDPlusOne with the Lean model and the reference request; "
+                "assert lines compare with net/url and publicsuffix.EffectiveTLDPlusOne in Go; non-trivial = every request record; "
+                "distinct by hash of the op input",
+    },
+}
